@@ -177,6 +177,8 @@ def gen(rng, i, tier):
                 case["from_pattern"] = rng.choice(pats)
             elif lay["k"] >= 2 and rng.random() < 0.3:
                 case["reprioritised"] = rng.randrange(1, lay["k"])  # the mux is first wired with rotated input order
+            elif rng.random() < 0.25:
+                case["relinked"] = rng.randrange(lay["k"])  # one input first reaches the mux through an extra element
             _state["queue"].append(case)
     return _state["queue"].pop(0)
 
@@ -217,6 +219,28 @@ def run(ctx, case):
             elif a.get("phase") != c.get("phase"):
                 sysobj.set_comp_phases(c["name"], c["phase"] if c.get("phase") is not None else [])
         ctx.count("history", "pattern edited on an analysed system")
+    elif case.get("relinked") is not None:
+        # one mux input first passes through an extra series element; the system is analysed; the element is removed
+        # with del_childs=False, which re-links the mux to the real input (same priority position)
+        import copy
+
+        k = case["relinked"]
+        spec_a = copy.deepcopy(spec)
+        ma = S.comp_map(spec_a)["MUX"]
+        real = ma["parents"][k]
+        extra = _c("~link", "RLoss", {"rs": 0.05}, [real])
+        pos = spec_a["comps"].index(ma)
+        spec_a["comps"].insert(pos, extra)
+        ma["parents"][k] = "~link"
+        if ma.get("via_rail"):
+            ma["via_rail"][k] = False
+        st, sysobj = H.try_build(spec_a)
+        if st != "ok":
+            raise RuntimeError("layout rejected by the public API: %s" % H.exc_sig(sysobj))
+        with H.quiet():
+            H.solve(sysobj)
+        sysobj.del_comp("~link", del_childs=False)
+        ctx.count("history", "mux input re-linked by deleting an intermediate element (del_childs=False)")
     elif case.get("reprioritised"):
         # the mux is first connected with its inputs in another (rotated) priority order; the system is analysed; the
         # mux is deleted with its subtree and re-added with the real order (the only way to change priorities), the
